@@ -109,6 +109,22 @@ class Spec:
     def nonlin_line(self, uhat):
         return f"nonlin {self.cfg_tokens()} {self.C} {self.nonlin} {U.cctoks(uhat)}"
 
+    def zmax(self):
+        """largest |λ·dt| over the grid (documented symbol): rounding of exp(z) is relative to 1+|z|"""
+        import itertools
+        kmax = self.N // 2
+        best = 0.0
+        for terms in self.lin:
+            for k in itertools.product(*[(0, 1, kmax, -kmax)] * self.D):
+                lam = 0j
+                for c, al in terms:
+                    t = complex(c)
+                    for d, a in enumerate(al):
+                        t *= (1j * 2 * np.pi * k[d] / self.L) ** a
+                    lam += t
+                best = max(best, abs(lam * self.dt))
+        return best
+
     def cell(self):
         return (self.name, self.D, self.N, self.order, self.N % 2)
 
